@@ -48,6 +48,9 @@ DOCS = [
     ("L2", "\\[aa `bb] cc](u) and` [dd <e>* ff](v) ![gg `hh](i)` jj](k)\n"),
     # constructs indented by four columns: their reading depends on whether the indented-code rule is active
     ("N", "    # two\n\n    - x\n\n    > q\n\n    ```\n    f\n    ```\n"),
+    # a linked image (description parsed by a nested inline parse inside link text) and constructs exactly at / around maxNesting=20
+    ("K", "[![alt *e* `c`](img.png)](http://u.v) and [![b](i)](j) [x ![y ![z](1)](2)](3)\n"),
+    ("M", "> " * 19 + "a\n\n" + "> " * 20 + "b\n\n" + "[" * 20 + "y" + "](u)" * 20 + "\n\n" + "*a [b " * 10 + "c" + "](u)*" * 10 + "\n"),
     ("U", "[new](http://never.seen/before?x=1) ![n](http://fresh.example/p.png) <http://unseen.example/z>\n"),
 ]
 DOC = dict(DOCS)
@@ -71,6 +74,8 @@ CALLSETS = [
     [("render", "L2"), ("render", "L1")],
     [("render", "A"), ("render", "N")],
     [("render", "A"), ("render", "U")],
+    [("render", "K"), ("render", "M")],
+    [("render", "M"), ("render", "K")],
 ]
 
 
@@ -83,7 +88,7 @@ def callsets_for(sc, quick):
     base = CALLSETS[:8]
     if quick and sc["name"] != "fresh-cm":
         return base[:2] + base[5:7]
-    return base
+    return base + CALLSETS[10:12]
 
 
 def floors(tier):
@@ -604,6 +609,10 @@ def run(ctx):
                 prefix = min(total, 350 if ctx.quick else total)
                 stride = 17 if ctx.quick else 1
                 ks = list(range(1, prefix + 1)) + list(range(prefix + 1 + (ctx.seed % stride), total + 1, stride))
+                if calls[0][1] == "M" or calls[1][1] == "M":
+                    # (long calls: a spread of points instead of every one)
+                    step = max(1, len(ks) // (120 if ctx.quick else 1500))
+                    ks = ks[ctx.seed % step::step]
                 if calls[1][1] == "FLOOD":
                     # the flooding second call is expensive: pre-empt A only inside shared-state code (facade, rule manager)
                     # (quick: only the facade's own methods, thorough: the rule managers' too)
